@@ -1,4 +1,4 @@
-(* GENERATED from /tmp/mut_C17/Python/dawgie/db/basis.py -- do not edit *)
+(* GENERATED from Python/dawgie/db/basis.py by tools/translate/range2coq.py -- do not edit *)
 From Coq Require Import ZArith Bool.
 Open Scope Z_scope.
 Open Scope bool_scope.
